@@ -2,13 +2,26 @@
 """print the markdown table of seeded changes from seeded/*/meta.json (for DESIGN.md §13.4)"""
 import glob, json, os
 root = os.path.join(os.path.dirname(os.path.abspath(__file__)), "..", "seeded")
-print("| seed | property | what it needs to manifest | caught by |")
-print("|------|----------|---------------------------|-----------|")
+import sys
+out = []
+out.append("| seed | property | what it needs to manifest | caught by |")
+out.append("|------|----------|---------------------------|-----------|")
 for d in sorted(glob.glob(os.path.join(root, "*"))):
     mp = os.path.join(d, "meta.json")
     if not os.path.exists(mp):
         continue
     m = json.load(open(mp))
     cb = m.get("caught_by", [])
-    print("| `%s` | %s | %s | %s |" % (os.path.basename(d), m.get("property", ""), m.get("needs", "").replace("|", "/"),
+    out.append("| `%s` | %s | %s | %s |" % (os.path.basename(d), m.get("property", ""), m.get("needs", "").replace("|", "/"),
                                       "; ".join(cb).replace("|", "/")))
+
+table = "\n".join(out)
+if "--write" in sys.argv:
+    dp = os.path.join(root, "..", "DESIGN.md")
+    d = open(dp).read()
+    a = d.index("<!-- seeds-table-begin -->") + len("<!-- seeds-table-begin -->\n")
+    b = d.index("<!-- seeds-table-end -->")
+    open(dp, "w").write(d[:a] + table + "\n" + d[b:])
+    print("DESIGN.md seeds table updated (%d seeds)" % (len(out) - 2))
+else:
+    print(table)
